@@ -26,27 +26,30 @@ OUT = os.environ.get("VERIF_OUT", VERIF)
 
 # id -> package directory (relative to the module root) the harness is compiled into
 CHECKS = {
-    "C01": {"pkg": "benchfmt"},
-    "C02": {"pkg": "benchfmt"},
-    "C03": {"pkg": "benchfmt"},
-    "C04": {"pkg": "benchproc"},
-    "C05": {"pkg": "benchproc"},
-    "C06": {"pkg": "benchproc"},
-    "C07": {"pkg": "benchproc"},
-    "C08": {"pkg": "benchproc"},
-    "C09": {"pkg": "benchproc"},
-    "C10": {"pkg": "benchunit"},
-    "C11": {"pkg": "internal/stats"},
-    "C12": {"pkg": "internal/stats"},
-    "C13": {"pkg": "benchmath"},
-    "C14": {"pkg": "cmd/benchstat"},
+    "C01": {"pkg": "benchfmt", "sweep": ["benchfmt"]},
+    "C02": {"pkg": "benchfmt", "sweep": ["benchfmt"]},
+    "C03": {"pkg": "benchfmt", "sweep": ["benchfmt"]},
+    "C04": {"pkg": "benchproc", "sweep": ["benchproc"]},
+    "C05": {"pkg": "benchproc", "sweep": ["benchproc"]},
+    "C06": {"pkg": "benchproc", "sweep": ["benchproc"]},
+    "C07": {"pkg": "benchproc", "sweep": ["benchproc"]},
+    "C08": {"pkg": "benchproc", "sweep": ["benchproc"]},
+    "C09": {"pkg": "benchproc", "sweep": ["benchproc"]},
+    "C10": {"pkg": "benchunit", "sweep": ["benchunit"]},
+    "C11": {"pkg": "internal/stats", "sweep": ["internal/stats"]},
+    "C12": {"pkg": "internal/stats", "sweep": ["internal/stats"]},
+    "C13": {"pkg": "benchmath", "sweep": ["benchmath"]},
+    "C14": {"pkg": "cmd/benchstat", "sweep": ["cmd/benchstat"]},
     "C15": {"pkg": "cmd/benchstat/internal/benchtab"},
-    "C16": {"pkg": "cmd/benchstat"},
-    "C17": {"pkg": "benchstat"},
+    "C16": {"pkg": "cmd/benchstat", "sweep": ["cmd/benchstat"]},
+    "C17": {"pkg": "benchstat", "sweep": ["benchstat"]},
     "C18": {"pkg": "benchseries"},
     "C19": {"pkg": "storage/app", "pkgs": ["storage/app", "analysis/app"]},
     "C20": {"pkg": "storage/app", "pkgs": ["storage/app", "storage/db"], "race_pkg": "storage/db"},
 }
+
+
+PRINTED = set()
 
 
 def goenv():
@@ -121,7 +124,8 @@ def run_check(cid, tier, replay=None):
     custom = prehooks(cid, tier)
     if custom is not None:
         return custom(replay)
-    if CHECKS[cid].get("pkgs"):
+    if CHECKS[cid].get("pkgs") or CHECKS[cid].get("sweep"):
+        CHECKS[cid].setdefault("pkgs", [CHECKS[cid]["pkg"]])
         return run_multi(cid, tier, replay, t0)
     binp, bt = build(cid)
     env = goenv()
@@ -142,12 +146,15 @@ def run_multi(cid, tier, replay, t0):
     os.makedirs(scratch, exist_ok=True)
     for f in glob.glob(os.path.join(scratch, "part-*.json")):
         os.remove(f)
+    if not replay:
+        subprocess.run(["rm", "-rf", os.path.join(OUT, "replays", cid)])
     rcs = []
     for i, pkg in enumerate(CHECKS[cid]["pkgs"]):
         binp, bt = build(cid, suffix=f"-{i}", pkg=pkg)
         env = goenv()
         env.update({"VERIF_TIER": tier, "VERIF_ROOT": OUT, "VERIF_KNOWN": os.path.join(VERIF, "known_findings.json"),
-                    "VERIF_EVIDENCE": os.path.join(scratch, f"part-{i}.json"), "VERIF_REPO": REPO, "VERIF_PART": str(i)})
+                    "VERIF_EVIDENCE": os.path.join(scratch, f"part-{i}.json"), "VERIF_REPO": REPO, "VERIF_PART": str(i),
+                    "VERIF_KEEP_REPLAYS": "1"})
         env.setdefault("VERIF_SEED", "0")
         if replay:
             env["VERIF_REPLAY"] = os.path.abspath(replay)
@@ -167,7 +174,7 @@ def run_multi(cid, tier, replay, t0):
         env = goenv()
         env.update({"VERIF_TIER": tier, "VERIF_ROOT": OUT, "VERIF_KNOWN": os.path.join(VERIF, "known_findings.json"),
                     "VERIF_EVIDENCE": os.path.join(scratch, "part-race.json"), "VERIF_REPO": REPO, "VERIF_RACE": "1",
-                    "GORACE": "halt_on_error=0"})
+                    "GORACE": "halt_on_error=0", "VERIF_KEEP_REPLAYS": "1"})
         env.setdefault("VERIF_SEED", "0")
         import io, contextlib
         buf = io.StringIO()
@@ -183,12 +190,48 @@ def run_multi(cid, tier, replay, t0):
             print("  the free-running -race pass reported a data race")
             rc = 1
         rcs.append(rc)
+    for j, sp in enumerate(CHECKS[cid].get("sweep") or []):
+        rcs.append(race_sweep(cid, tier, sp, j, scratch, t0))
     merge_parts(cid, tier, scratch, time.time() - t0)
     if any(rc == 1 for rc in rcs):
         return 1
     if all(rc == 0 for rc in rcs):
         return 0
     return 2
+
+
+def race_sweep(cid, tier, pkg, j, scratch, t0):
+    """Free-running -race pass of the SAME harness bodies (the enumerating families run on 16 real goroutines, each for a
+    short time budget): the cooperative/sequential passes cannot see unsynchronised shared state (a buffer hoisted to
+    package scope, a cache without a lock); the race detector and the concurrent-use oracle can. Sampling by nature."""
+    import io, contextlib
+    binp, bt = build(cid, race=True, suffix=f"-sweep{j}", pkg=pkg)
+    env = goenv()
+    env.update({"VERIF_TIER": "quick", "VERIF_ROOT": OUT, "VERIF_KNOWN": os.path.join(VERIF, "known_findings.json"),
+                "VERIF_EVIDENCE": os.path.join(scratch, f"part-sweep{j}.json"), "VERIF_REPO": REPO, "VERIF_RACE_SWEEP": "1",
+                "VERIF_PART": "sweep", "VERIF_RACE_FAMILY_S": "2" if tier == "quick" else "20",
+                "GORACE": "halt_on_error=0", "VERIF_KEEP_REPLAYS": "1"})
+    env.setdefault("VERIF_SEED", "0")
+    buf = io.StringIO()
+    with contextlib.redirect_stdout(buf):
+        rc = run_binary(cid, binp, env, t0, bt)
+    out = buf.getvalue()
+    races = out.count("WARNING: DATA RACE")
+    if races:
+        # print the first report in full, the verdict lines, and keep everything in the replay file
+        i = out.index("WARNING: DATA RACE")
+        sys.stdout.write(out[i:i + 6000] + "\n")
+        sys.stdout.write("\n".join(l for l in out.splitlines() if l.startswith(("SUMMARY", "  family", "VIOLATION", "KNOWN-FINDING", "[run.py]"))) + "\n")
+        os.makedirs(os.path.join(OUT, "replays", cid), exist_ok=True)
+        path = os.path.join(OUT, "replays", cid, f"race-report-{j}.txt")
+        open(path, "w").write(out)
+        print(f"VIOLATION property={cid} replay={path}")
+        print(f"  the free-running -race pass of the harness bodies in {pkg} reported {races} data race(s)")
+        rc = 1
+    else:
+        # known findings were already printed by the enumerating pass
+        sys.stdout.write("".join(l for l in out.splitlines(True) if not (l.startswith("KNOWN-FINDING:") and l in PRINTED)))
+    return rc
 
 
 def merge_parts(cid, tier, scratch, wall, refusal=None, exhaustive_family=None):
@@ -231,6 +274,7 @@ def merge_parts(cid, tier, scratch, wall, refusal=None, exhaustive_family=None):
         cov["samples"] = (cov["samples"] + (c.get("samples") or []))[:8]
         for k in c.get("known_findings_hit", []):
             known.add(k)
+        cov["max_chunk_s"] = max(cov.get("max_chunk_s", 0), c.get("max_chunk_s", 0))
     if not exhaustive_family and cov["families"]:
         # the free-running -race passes are samples by design; exhaustiveness is a statement about the enumerating families
         cov["exhaustive"] = all(f.get("exhaustive", True) for n, f in cov["families"].items() if not n.startswith("free-running")) and refusal is None
@@ -239,6 +283,12 @@ def merge_parts(cid, tier, scratch, wall, refusal=None, exhaustive_family=None):
         cov["exhaustive"] = bool(fam and fam.get("exhaustive")) and refusal is None
     for fam in cov["families"].values():
         fam["distinct_outcomes"] = len(fam.get("outcomes", {}))
+    # the totals describe the enumerating families only; what the free-running -race passes sampled is reported apart
+    for k in ("evaluations", "distinct_nontrivial", "states", "transitions"):
+        cov[k] = sum(f.get(k, 0) for n, f in cov["families"].items() if not n.startswith("free-running"))
+    sampled = sum(f.get("evaluations", 0) for n, f in cov["families"].items() if n.startswith("free-running"))
+    if sampled:
+        cov["free_running_race_pass_evaluations"] = sampled
     cov["rule"] = " || ".join(sorted(rules))
     cov["traces_validated_against_impl"] = cov["transitions"]
     cov["processes"] = len(parts)
@@ -266,6 +316,8 @@ def run_binary(cid, binp, env, t0, bt, args=None):
     saw_summary = False
     for line in p.stdout:
         sys.stdout.write(line)
+        if line.startswith("KNOWN-FINDING:"):
+            PRINTED.add(line)
         if line.startswith("VIOLATION property="):
             saw_violation = True
         if line.startswith("SUMMARY property=") or line.startswith("REPLAY property="):
@@ -297,6 +349,9 @@ def main():
                     bt += b1
             else:
                 _, bt = build(cid)
+            for j, sp in enumerate(CHECKS[cid].get("sweep") or []):
+                _, b1 = build(cid, race=True, suffix=f"-sweep{j}", pkg=sp)
+                bt += b1
             print(f"built {cid} in {bt:.1f}s")
         sys.exit(rc)
     if len(sys.argv) < 3:
